@@ -312,10 +312,16 @@ Fixpoint post_loop (e : jwe_enc_row) (s : ser) (prot : dict) (unprot : pv) (cek 
       Ok (set_ek r ek :: rs)
   end.
 
+(* DeflateZipModel.compress: data = zlib.compress(s); return data[2:-4]
+   ("since DEF is always gzip, we can drop gzip headers and tail": the raw RFC 1951 stream) *)
+Definition strip_zlib (z : bytes) : bytes := firstn (length z - 6) (skipn 2 z).
+Definition zip_compress (O : oracles) (m : bytes) : res bytes :=
+  do z <- o_deflate O m; Ok (strip_zlib z).
+
 Definition zip_plain (g : registry) (prot : dict) (m : bytes) : res bytes :=
   if dmem prot (s_ "zip") then
     do _ <- get_zip g (hget prot "zip");
-    o_deflate O m
+    zip_compress O m
   else Ok m.
 
 Record eobj := {
